@@ -320,7 +320,8 @@ func (t *rtpDownTrack) GetMaxBitrate() (uint64, int, int) {
 	now := rtptime.Jiffies()
 	layer := t.getLayerInfo()
 	r := t.maxBitrate.Get(now)
-	if r == ^uint64(0) {
+	if r == 0 || r == ^uint64(0) {
+		// never set, or stale
 		r = 512 * 1024
 	}
 	rr := t.maxREMBBitrate.Get(now)
